@@ -2152,7 +2152,44 @@ class Engine:
             return r if (r is True or r is False) else simp(r)
         if w == 256:
             return self.heq(x, y, depth)
+        if w > 256:
+            # hash inputs of other lengths (e.g. 32+32+8+32 bytes): compare along the concatenation structure, so that 32-byte
+            # parts that are themselves hashes are compared with heq
+            px, py = self._concat_parts(x), self._concat_parts(y)
+            if len(px) > 1 or len(py) > 1:
+                cuts = sorted({c for c, _ in px} | {c for c, _ in py} | {w}, reverse=True)
+                r = True
+                for hi1, lo in zip(cuts, cuts[1:] + [0]):
+                    if hi1 == lo:
+                        continue
+                    xa, ya = self._segment(x, px, hi1, lo), self._segment(y, py, hi1, lo)
+                    e = self.heq(xa, ya, depth) if hi1 - lo == 256 else simp(xa == ya)
+                    r = b_and(r, e)
+                    if r is False:
+                        return False
+                return r if (r is True or r is False) else simp(r)
         return simp(x == y)
+
+    def _concat_parts(self, t):
+        """[(bit position just above the part, part)] for the top-level concatenation structure of t"""
+        out = []
+
+        def walk(u, top):
+            if z3.is_app_of(u, z3.Z3_OP_CONCAT):
+                for k in range(u.num_args()):
+                    c = u.arg(k)
+                    walk(c, top)
+                    top -= c.size()
+            else:
+                out.append((top, u))
+        walk(t, t.size())
+        return out
+
+    def _segment(self, t, parts, hi1, lo):
+        for top, u in parts:
+            if top == hi1 and top - u.size() == lo:
+                return u
+        return z3.simplify(z3.Extract(hi1 - 1, lo, t))
 
     # ---- byte packing (big endian: byte 0 is most significant)
     _pack_cache = {}
@@ -2383,7 +2420,34 @@ class Engine:
             res, ok = zero, False
         else:
             gm = st.heap[x.obj]
-            res, ok = gm.get(self, st, k, zero, xu)
+            try:
+                res, ok = gm.get(self, st, k, zero, xu)
+            except MergeFail:
+                # values that cannot be merged into one term (e.g. nil vs non-nil pointers): one path per matching entry
+                alts, none = [], True
+                for ek, ev in list(gm.conc.values()) + list(gm.sym):
+                    c = self.eq(k, ek, xu["key"])
+                    if c is False:
+                        continue
+
+                    def mk(ev=ev):
+                        def thunk(s):
+                            f = s.frames[-1]
+                            f.locals[ins["r"]] = (ev, True) if ins["commaok"] else ev
+                            f.i += 1
+                        return thunk
+                    if c is True:
+                        alts, none = [(None, mk())], False
+                        break
+                    alts.append((c, mk()))
+                    none = b_and(none, z3.Not(c))
+                if none is not False:
+                    def miss(s):
+                        f = s.frames[-1]
+                        f.locals[ins["r"]] = (zero, False) if ins["commaok"] else zero
+                        f.i += 1
+                    alts.append((None if none is True else none, miss))
+                raise Fork(alts)
         fr.locals[ins["r"]] = (res, ok) if ins["commaok"] else res
         fr.i += 1
 
